@@ -961,10 +961,10 @@ def monitors_only(run, wire, scs, stats):
 def replay(run, path):
     r = json.load(open(path))
     print(json.dumps({k: v for k, v in r.items() if k != "scenario"}, indent=1)[:3000])
-    ok, blog, bins = vlib.cargo_build(["wire"])
+    ok, blog, bins = vlib.cargo_build(["wire", "tlsauth"])
     if "scenario" not in r:
         return 0
-    res = W.run_scenario(bins["wire"], r["scenario"])
+    res = W.run_scenario(bins["tlsauth" if "tls_certificate" in r["scenario"].get("toml", "") else "wire"], r["scenario"])
     name = r.get("client")
     bad = 0
     for e in res.get("events", []):
